@@ -3,6 +3,8 @@ C06 — FIFO, LIFO and filter retrieval discipline holds, also after cancellatio
 (positional stores are FIFO only; LIFO exists in BufferStore)
 -/
 import FsVerif.Proofs.PosExtra
+import FsVerif.Proofs.BufExtra
+import FsVerif.Proofs.Fleet
 namespace FsVerif.Props.C06
 open FsVerif PosStore
 
@@ -73,5 +75,44 @@ example : (run (init { cap := none })
       [.reservePut 0 0, .reservePut 0 0, .reservePut 0 0, .put 0 0 ⟨1, 0⟩, .put 0 1 ⟨2, 0⟩, .put 0 2 ⟨3, 0⟩,
        .reserveGet 1 0 .always, .cancelGet 3, .reserveGet 1 0 .always]).items.map (·.item.id) = [1, 2, 3] := by
   decide
+
+/-! ### BufferStore (FIFO and LIFO) and the store inside a Fleet: the positional discipline.  In every reachable state the granted
+retrievals own exactly the FIRST k ready entries (FIFO) / the TOP k (LIFO), k = number of granted retrievals; a new grant binds the
+entry right behind that block: `ready[k]` (FIFO: the oldest entry nobody holds) / `ready[len - 1 - k]` (LIFO: the most recent one).
+What the order of `ready` itself is - the order in which entries became available, a released entry going back next to the block - is
+what the lock-step comparison and the C06 judge decide; no theorem states it. -/
+
+theorem buf_reserved_block {s : BufStore} (h : BufStore.ReachD s) : s.resItems.Perm (BufStore.resPart s) ∧ s.resEv.length = s.getRes.length :=
+  ⟨(BufStore.reachD_binv h).bindItems, (BufStore.reachD_binv h).bindEv.length_eq⟩
+
+theorem buf_grant_binds_next {s : BufStore} (h : BufStore.Core s) {t : Tok} {q : List Tok} (hq : s.getQ = t :: q) (hs : s.serves = true) :
+    ∃ e, s.trigGet.resItems = s.resItems ++ [e] ∧
+      ((s.cfg.mode = .fifo → s.ready[s.resEv.length]? = some e) ∧
+       (s.cfg.mode = .lifo → s.ready[s.ready.length - 1 - s.resEv.length]? = some e)) := by
+  have hlen : s.resEv.length = s.getRes.length := h.bindEv.length_eq
+  have hlt : s.resEv.length < s.ready.length := by have := (BufStore.serves_iff s).mp hs; omega
+  rcases BufStore.trigGet_cases s with ⟨_, hn | hn⟩ | ⟨t', q', e, hq', _, hb, he⟩ | ⟨t', q', hq', _, hb, _⟩
+  · rw [hq] at hn; cases hn
+  · rw [hs] at hn; cases hn
+  · refine ⟨e, by rw [he], ?_, ?_⟩
+    · intro hm; unfold BufStore.bindIdx at hb; rw [hm] at hb; simpa using hb
+    · intro hm; unfold BufStore.bindIdx at hb; rw [hm] at hb; simp only [hlt, ↓reduceIte] at hb; simpa using hb
+  · exfalso
+    unfold BufStore.bindIdx at hb
+    cases hm : s.cfg.mode with
+    | fifo =>
+      rw [hm] at hb
+      simp at hb; omega
+    | lifo =>
+      rw [hm] at hb
+      simp only [hlt, ↓reduceIte] at hb
+      simp at hb; omega
+
+/-- the same for the store inside a Fleet (always FIFO): a grant binds the oldest delivered item nobody holds -/
+theorem fleet_grant_binds_next {s : FleetStore} (h : FleetStore.ReachD s) {t : Tok} {q : List Tok} (hq : s.b.getQ = t :: q) (hs : s.b.serves = true) :
+    ∃ e, s.b.trigGet.resItems = s.b.resItems ++ [e] ∧ s.b.ready[s.b.resEv.length]? = some e := by
+  have hk := FleetStore.reachD_kt h
+  obtain ⟨e, h1, h2, _⟩ := buf_grant_binds_next hk.core hq hs
+  exact ⟨e, h1, h2 (by rw [hk.cfgB])⟩
 
 end FsVerif.Props.C06
